@@ -19,6 +19,7 @@ use saito_core::core::consensus::golden_ticket::GoldenTicket;
 use saito_core::core::consensus::hop::Hop;
 use saito_core::core::consensus::slip::{Slip, SlipType};
 use saito_core::core::consensus::transaction::{Transaction, TransactionType};
+use saito_core::core::consensus::wallet::Wallet;
 use saito_core::core::defs::{SaitoHash, SaitoPrivateKey, SaitoPublicKey};
 use saito_core::core::util::crypto::{hash, verify};
 use verif_harness::common::{jstr, Args, Summary};
@@ -1271,6 +1272,7 @@ async fn run_payout_scenario(ctx: &mut Ctx, rng: &mut Rng, keys: &Keys, cases: &
             outputs.iter().map(|o| vec![o.0, o.1, o.2]).collect::<Vec<_>>(),
             eligible.iter().collect::<Vec<_>>(), bound
         );
+        oracle_ticket(ctx, case, &b, prev, keys, &desc);
         if fee_txs.len() != 1 {
             ctx.summary.oracle_failure(case, &format!("accepted block with golden ticket has {} fee transactions", fee_txs.len()), &desc);
         }
@@ -1427,6 +1429,252 @@ async fn part3(ctx: &mut Ctx, rng: &mut Rng) {
     ctx.files.extend(files);
 }
 
+// ------------------------------------------------------------------ part 4: whose golden ticket is it
+
+/// leading zeros of the solution hash of (target, random, key) — what GoldenTicket::validate compares
+fn solution_lz(target: &SaitoHash, random: &SaitoHash, pk: &SaitoPublicKey) -> u32 {
+    let h = hash(&GoldenTicket::create(*target, *random, *pk).serialize_for_net());
+    let mut lz = 0u32;
+    for b in h.iter() {
+        if *b == 0 {
+            lz += 8;
+        } else {
+            lz += b.leading_zeros();
+            break;
+        }
+    }
+    lz
+}
+
+/// block on `parent_hash` carrying exactly the given (already built) golden-ticket transaction
+async fn make_block_with_gttx(
+    node: &Node,
+    parent_hash: SaitoHash,
+    timestamp: u64,
+    txs: Vec<Transaction>,
+    mut gttx: Transaction,
+) -> Result<Block, String> {
+    let mut map = fixed_tx_map();
+    for mut tx in txs {
+        tx.generate(&node.pk, 0, 0);
+        map.insert(tx.signature, tx);
+    }
+    gttx.generate(&node.pk, 0, 0);
+    let mut block = Block::create(&mut map, parent_hash, &node.blockchain, timestamp, &node.pk, &node.sk, Some(gttx), &node.cfg, &node.storage)
+        .await
+        .map_err(|e| format!("Block::create failed: {:?}", e))?;
+    block.generate().map_err(|e| format!("generate failed: {:?}", e))?;
+    block.sign(&node.sk);
+    block.generate().map_err(|e| format!("generate failed: {:?}", e))?;
+    Ok(block)
+}
+
+/// (target, random, key) of the golden ticket a block carries (layout of serialize_for_net)
+fn ticket_of(b: &Block) -> Option<(SaitoHash, SaitoHash, SaitoPublicKey)> {
+    let t = b.transactions.iter().find(|t| t.transaction_type == TransactionType::GoldenTicket)?;
+    if t.data.len() != 97 {
+        return None;
+    }
+    Some((t.data[0..32].try_into().unwrap(), t.data[32..64].try_into().unwrap(), t.data[64..97].try_into().unwrap()))
+}
+
+/// direct oracle for an ACCEPTED block with a golden ticket: the ticket must solve the PARENT's
+/// hash at the parent's difficulty and the miner output must go to the ticket's key
+fn oracle_ticket(ctx: &mut Ctx, case: usize, b: &Block, parent: &Block, keys: &Keys, desc: &str) {
+    let (target, random, pk) = match ticket_of(b) {
+        Some(x) => x,
+        None => return,
+    };
+    let lz = solution_lz(&parent.hash, &random, &pk);
+    if (lz as u64) < parent.difficulty {
+        let miner_paid: u64 = b
+            .transactions
+            .iter()
+            .filter(|t| t.transaction_type == TransactionType::Fee)
+            .flat_map(|t| t.to.iter())
+            .filter(|s| s.slip_type == SlipType::MinerOutput)
+            .map(|s| s.amount)
+            .sum();
+        ctx.summary.oracle_failure(
+            case,
+            &format!(
+                "accepted block {} carries a golden ticket that does not solve its parent's lottery (solution has {} leading zeros against the parent hash, parent difficulty {}; ticket target {} the parent hash); the miner output pays {} to key#{}",
+                b.id, lz, parent.difficulty, if target == parent.hash { "is" } else { "is NOT" }, miner_paid, keys.id(&pk)
+            ),
+            desc,
+        );
+    }
+    for t in b.transactions.iter().filter(|t| t.transaction_type == TransactionType::Fee) {
+        for s in t.to.iter().filter(|s| s.slip_type == SlipType::MinerOutput) {
+            if s.public_key != pk {
+                ctx.summary.oracle_failure(
+                    case,
+                    &format!("miner output of block {} goes to key#{} but the golden ticket names key#{}", b.id, keys.id(&s.public_key), keys.id(&pk)),
+                    desc,
+                );
+            }
+        }
+    }
+}
+
+const GT_KINDS: [&str; 6] = [
+    "for-parent",
+    "for-grandparent",
+    "for-sibling-fork-block",
+    "for-random-hash",
+    "for-parent-below-difficulty",
+    "foreign-target-field-but-solves-parent",
+];
+
+async fn run_ticket_scenario(ctx: &mut Ctx, rng: &mut Rng, keys: &Keys, kind: usize, n_gt: usize, cases: &mut Vec<String>, case: usize) {
+    let hb = 100u64;
+    let params = Params { genesis_period: 100, heartbeat: hb, ..Params::default() };
+    let mut node = Node::new(&params, 1);
+    let creator = 0usize;
+    let sender = 1usize;
+    let fail = |ctx: &mut Ctx, cases: &mut Vec<String>, why: String| {
+        ctx.summary.notes.push(format!("ticket scenario not built: {}", why));
+        cases.push("((0, 0), true, 0, [])".to_string());
+        ctx.summary.case_descs.push("{\"part\":\"ticket\",\"setup\":\"failed\"}".to_string());
+    };
+    let iss: Vec<(SaitoPublicKey, u64)> = (0..4).map(|_| (keys.v[sender].0, 400_000_000_000u64)).collect();
+    let g = make_genesis(&node, 2_000_000, &iss).await.unwrap();
+    if node.add_block(g.clone()).await != AddClass::OnChain {
+        return fail(ctx, cases, "genesis".to_string());
+    }
+    let mut purse = Purse { slips: (0..4).map(|i| outputs_of(&g, i)[0].clone()).collect(), next: 0 };
+    // n_gt - 1 consecutive golden-ticket blocks: the difficulty climbs by one per block
+    let mut tip = g.clone();
+    for i in 0..n_gt - 1 {
+        let ts = tip.timestamp + 2 * hb + 10 + rng.below(40);
+        let b = match make_block(&node, tip.hash, ts, vec![], true, case as u64 * 64 + i as u64).await {
+            Ok(b) => b,
+            Err(e) => return fail(ctx, cases, e),
+        };
+        if node.add_block(b.clone()).await != AddClass::OnChain {
+            return fail(ctx, cases, format!("chain block {} rejected", b.id));
+        }
+        tip = b;
+    }
+    let grandparent = tip.clone();
+    // sibling fork block F (built, never offered) and the parent P (golden ticket + fees), both on the grandparent
+    let sibling = match make_block(&node, grandparent.hash, grandparent.timestamp + 2 * hb + 77, vec![], true, case as u64 * 64 + 50).await {
+        Ok(b) => b,
+        Err(e) => return fail(ctx, cases, e),
+    };
+    let ts_p = grandparent.timestamp + 2 * hb + 20;
+    let fee_tx = routed_tx(keys, &mut purse, sender, 10_000_000 + rng.below(1000), &[creator], ts_p);
+    let parent = match make_block(&node, grandparent.hash, ts_p, vec![fee_tx], true, case as u64 * 64 + 51).await {
+        Ok(b) => b,
+        Err(e) => return fail(ctx, cases, e),
+    };
+    if node.add_block(parent.clone()).await != AddClass::OnChain {
+        return fail(ctx, cases, "parent rejected".to_string());
+    }
+    let d = parent.difficulty;
+    let (miner_pk, miner_sk) = keys.v[4];
+    let random_target = hash(&rng.next().to_be_bytes());
+    let target: SaitoHash = match kind {
+        0 | 4 => parent.hash,
+        1 | 5 => grandparent.hash,
+        2 => sibling.hash,
+        _ => random_target,
+    };
+    // search the ticket's random
+    let mut random = hash(&(case as u64 ^ rng.next()).to_be_bytes());
+    let mut found = false;
+    for _ in 0..200_000 {
+        let lz_target = solution_lz(&target, &random, &miner_pk) as u64;
+        let lz_parent = solution_lz(&parent.hash, &random, &miner_pk) as u64;
+        let ok = match kind {
+            0 => lz_parent >= d,
+            // internally consistent tickets (they solve *their* target at the parent's difficulty) that do not solve the parent
+            1 | 2 | 3 => lz_target >= d && lz_parent < d,
+            4 => lz_parent < d,
+            _ => lz_parent >= d,
+        };
+        if ok {
+            found = true;
+            break;
+        }
+        random = hash(&random);
+    }
+    if !found {
+        return fail(ctx, cases, format!("no ticket found for kind {} at difficulty {}", kind, d));
+    }
+    let ticket = GoldenTicket::create(target, random, miner_pk);
+    let gttx = Wallet::create_golden_ticket_transaction(ticket, &miner_pk, &miner_sk).await;
+    let ts_c = parent.timestamp + 2 * hb + 5 + rng.below(30);
+    let cand = match make_block_with_gttx(&node, parent.hash, ts_c, vec![], gttx).await {
+        Ok(b) => b,
+        Err(e) => return fail(ctx, cases, e),
+    };
+    let class = node.add_block(cand.clone()).await;
+    let accepted = class == AddClass::OnChain;
+    let lz_parent = solution_lz(&parent.hash, &random, &miner_pk) as u64;
+    let lz_target = solution_lz(&target, &random, &miner_pk) as u64;
+    let miner_outputs: Vec<(u64, u64)> = cand
+        .transactions
+        .iter()
+        .filter(|t| t.transaction_type == TransactionType::Fee)
+        .flat_map(|t| t.to.iter())
+        .filter(|s| s.slip_type == SlipType::MinerOutput)
+        .map(|s| (keys.id(&s.public_key), s.amount))
+        .collect();
+    let desc = format!(
+        "{{\"part\":\"ticket\",\"kind\":{},\"parent_id\":{},\"parent_difficulty\":{},\"parent_total_fees\":{},\"ticket_target_is_parent\":{},\"solution_leading_zeros_vs_ticket_target\":{},\"solution_leading_zeros_vs_parent_hash\":{},\"ticket_key\":{},\"miner_outputs_key_amount\":{:?},\"add_block\":{}}}",
+        jstr(GT_KINDS[kind]), parent.id, d, parent.total_fees, target == parent.hash, lz_target, lz_parent, keys.id(&miner_pk),
+        miner_outputs.iter().map(|o| vec![o.0, o.1]).collect::<Vec<_>>(), jstr(&format!("{:?}", class))
+    );
+    if accepted {
+        oracle_ticket(ctx, case, &cand, &parent, keys, &desc);
+    } else if lz_parent >= d && class != AddClass::Panicked {
+        ctx.summary.oracle_failure(
+            case,
+            &format!("block whose golden ticket solves the parent's lottery ({} leading zeros, difficulty {}) was not accepted ({:?})", lz_parent, d, class),
+            &desc,
+        );
+    }
+    ctx.summary.count("ticket.kind", GT_KINDS[kind]);
+    ctx.summary.count("ticket.difficulty", &format!("{}", d));
+    ctx.summary.count("ticket.result", &format!("{}:{:?}", GT_KINDS[kind], class));
+    ctx.nontrivial(format!("ticket/{}", desc));
+    cases.push(format!(
+        "(({}, {}), {}, {}, {})",
+        lz_parent,
+        d,
+        gal::boolean(accepted),
+        keys.id(&miner_pk),
+        gal::nlist(&miner_outputs.iter().map(|o| o.0).collect::<Vec<_>>())
+    ));
+    if kind <= 1 && n_gt == 8 {
+        ctx.summary.samples.push(desc.clone());
+    }
+    ctx.summary.case_descs.push(desc);
+}
+
+async fn part4(ctx: &mut Ctx, rng: &mut Rng) {
+    let thorough = ctx.args.tier == "thorough";
+    let keys = Keys::new(6);
+    let offset = ctx.next_case();
+    let mut cases: Vec<String> = vec![];
+    let reps = if thorough { 8 } else { 2 };
+    for _ in 0..reps {
+        for n_gt in [5usize, 6, 7, 8, 9] {
+            for kind in 0..GT_KINDS.len() {
+                let case = offset + cases.len();
+                let before = ctx.summary.case_descs.len();
+                run_ticket_scenario(ctx, rng, &keys, kind, n_gt, &mut cases, case).await;
+                assert_eq!(ctx.summary.case_descs.len(), before + 1);
+            }
+        }
+    }
+    let header = "From Saito Require Import Base BurnFee Routing.\nDefinition check (c : (N * N) * bool * N * list N) : bool :=\n  let '((lz, d), accepted, miner, miner_outs) := c in\n  Bool.eqb (golden_ticket_solves lz d) accepted && forallb (fun k => k =? miner) miner_outs.".to_string();
+    let dir = format!("{}/cases", ctx.args.out);
+    let files = write_shards_off(&dir, "ticket", &header, "(N * N) * bool * N * list N", &cases, 4, offset);
+    ctx.files.extend(files);
+}
+
 fn main() {
     let args = Args::parse();
     verif_harness::common::init_log();
@@ -1448,6 +1696,11 @@ fn main() {
         let rt = tokio::runtime::Builder::new_current_thread().enable_all().build().unwrap();
         let mut r3 = rng.fork();
         rt.block_on(part3(&mut ctx, &mut r3));
+    }
+    if only.is_empty() || only.contains('4') {
+        let rt = tokio::runtime::Builder::new_current_thread().enable_all().build().unwrap();
+        let mut r4 = rng.fork();
+        rt.block_on(part4(&mut ctx, &mut r4));
     }
     ctx.summary.evaluations = ctx.summary.case_descs.len() as u64;
     ctx.summary.case_files = ctx.files.clone();
